@@ -1506,6 +1506,142 @@ fn thread_stress(args: &Args, rounds: usize, out: &mut Out) {
     }
 }
 
+/// Real-thread contention on ONE expected version (quick tier): in every round k editor sessions
+/// open the file (all are given the same version v), wait on a barrier and call
+/// `apply_source(expected = v, <own ~40 kB content>)` together; every 4th round a further thread
+/// issues open / format / list requests meanwhile.  The property's statement on the outcome:
+/// at most one success per expected version (exactly one when only writers run), it returns v+1,
+/// and the file afterwards holds exactly the content of that success (else the previous content).
+/// This depends on check, disk write and commit of `apply_source` being ONE locked section
+/// (`Proto.next (.finish i)` in the model; `c19_counterexample_split_apply` shows what happens
+/// otherwise).  Threads are nondeterministic: a failure is reported with the round's trace and
+/// marked schedule-dependent.
+fn barrier_stress(args: &Args, rounds: usize, out: &mut Out) {
+    if rounds == 0 {
+        return;
+    }
+    let base = std::env::temp_dir().join(format!("c19-{}-{}-bar", std::process::id(), args.seed));
+    let _ = std::fs::remove_dir_all(&base);
+    let root = base.join("proj");
+    write_file(&root.join("main.st"), "v0\n");
+    write_file(&root.join("other.st"), "PROGRAM O\nEND_PROGRAM\n");
+    let state = Arc::new(WebIdeState::new(Some(root.clone())));
+    let k = 4usize;
+    let toks: Vec<String> =
+        (0..k).map(|_| state.create_session(IdeRole::Editor).expect("session").token).collect();
+    let viewer = state.create_session(IdeRole::Viewer).expect("session").token;
+    let mut rng = Rng::for_case(args.seed, u64::MAX - 7);
+    let mut expected_disk = "v0\n".to_string();
+    for round in 0..rounds {
+        let mixed = round % 4 == 3;
+        let mut trace: Vec<String> = Vec::new();
+        let mut versions = Vec::new();
+        for (i, t) in toks.iter().enumerate() {
+            match state.open_source(t, "main.st") {
+                Ok(s) => {
+                    trace.push(format!("t{i} open -> v{} ({} bytes)", s.version, s.content.len()));
+                    versions.push(s.version);
+                }
+                Err(e) => trace.push(format!("t{i} open -> {}", err_str(&e))),
+            }
+        }
+        let v = versions.first().copied().unwrap_or(0);
+        let mut problems: Vec<String> = Vec::new();
+        if versions.len() != k || versions.iter().any(|x| *x != v) {
+            problems.push(format!("sequential opens returned different versions {versions:?}"));
+        }
+        let barrier = Arc::new(std::sync::Barrier::new(k + usize::from(mixed)));
+        let pad = 30_000 + rng.below(20_000) as usize;
+        let mut handles = Vec::new();
+        for (i, t) in toks.iter().enumerate() {
+            let (state, barrier, t) = (state.clone(), barrier.clone(), t.clone());
+            let content = format!("r{round}-t{i}\n{}\n", char::from(b'a' + i as u8).to_string().repeat(pad));
+            handles.push(std::thread::spawn(move || {
+                barrier.wait();
+                let r = state.apply_source(&t, "main.st", v, content.clone(), true);
+                (i, content, r.map(|w| w.version).map_err(|e| err_str(&e)))
+            }));
+        }
+        let side = mixed.then(|| {
+            let (state, barrier, viewer, t0) = (state.clone(), barrier.clone(), viewer.clone(), toks[0].clone());
+            std::thread::spawn(move || {
+                barrier.wait();
+                let mut n = 0u32;
+                for j in 0..6 {
+                    let ok = match j % 3 {
+                        0 => state.open_source(&viewer, "other.st").is_ok(),
+                        1 => state.format_source(&t0, "main.st", None).is_ok(),
+                        _ => state.list_sources(&viewer).is_ok(),
+                    };
+                    n += u32::from(ok);
+                }
+                n
+            })
+        });
+        let mut results = Vec::new();
+        for h in handles {
+            match h.join() {
+                Ok(r) => results.push(r),
+                Err(_) => problems.push("a writer thread panicked".into()),
+            }
+        }
+        if let Some(h) = side {
+            if h.join().is_err() {
+                problems.push("the reader thread panicked".into());
+            }
+        }
+        results.sort_by_key(|r| r.0);
+        let mut successes = Vec::new();
+        for (i, content, r) in &results {
+            match r {
+                Ok(nv) => {
+                    trace.push(format!("t{i} apply(expected={v}) -> ok v{nv}"));
+                    successes.push((*i, content.clone(), *nv));
+                }
+                Err(e) => trace.push(format!("t{i} apply(expected={v}) -> {e}")),
+            }
+        }
+        if successes.len() > 1 {
+            problems.push(format!("{} writes based on version {v} succeeded", successes.len()));
+        }
+        if successes.is_empty() && problems.is_empty() {
+            problems.push(format!("no write based on the current version {v} succeeded"));
+        }
+        for (i, _, nv) in &successes {
+            if *nv != v + 1 {
+                problems.push(format!("t{i}: success is not v -> v+1 ({v} -> {nv})"));
+            }
+        }
+        // the last success = the one with the highest returned version
+        if let Some((_, c, _)) = successes.iter().max_by_key(|s| s.2) {
+            expected_disk = c.clone();
+        }
+        let disk = std::fs::read_to_string(root.join("main.st")).unwrap_or_default();
+        if disk != expected_disk {
+            let head: String = disk.chars().take(12).collect();
+            let want: String = expected_disk.chars().take(12).collect();
+            problems.push(format!(
+                "disk ({} bytes, starts {head:?}) is not the content of the last success ({} bytes, starts {want:?})",
+                disk.len(),
+                expected_disk.len()
+            ));
+            // keep going from what is really there
+            expected_disk = disk;
+        }
+        out.count("barrier_rounds");
+        out.add("barrier_successes", successes.len() as u64);
+        if !problems.is_empty() {
+            out.count("oracle_fail_barrier");
+            out.line(format!(
+                "# ORACLE-FAIL {{\"case\": \"barrier-{round}\", \"class\": \"lost-update-threads\", \"schedule_dependent\": true, \"op\": \"{k} threads released together: apply_source(main.st, expected={v})\", \"detail\": {}, \"trace\": {}}}",
+                json_escape(&problems.join("; ")),
+                serde_json::to_string(&trace).unwrap_or_default()
+            ));
+        }
+    }
+    let _ = std::fs::remove_dir_all(&base);
+}
+
 pub fn run(args: &Args) -> i32 {
     let mut out = Out::new();
     for n in args.case_numbers() {
@@ -1518,6 +1654,7 @@ pub fn run(args: &Args) -> i32 {
     if args.only.is_none() {
         out.line("case known");
         replay_rename_symbol_bypass(args, &mut out);
+        barrier_stress(args, args.extra_usize("barrier", 200), &mut out);
         let rounds = args.extra_usize("stress", 0);
         thread_stress(args, rounds, &mut out);
         out.line("end");
